@@ -19,6 +19,11 @@ def _sample(lst, n, seed):
 
 # ------------------------------------------------------------------ C10: parameter expansion
 def c10(tier, seed):
+    _c10_extra = [
+        {'script': 'A=$$\nfunction f() {\n    ./eq $$ $A && ./st same 0\n}\nf\nf | cat\n./st x 0 | f\n', 'files': {'eq': EQ, 'st': ST}, 'expect_stdout_prefix': 'same\nsame\n', 'area': 'expand_env:pid-inside-a-function-used-as-a-pipeline-stage'},
+        {'script': 'if ./st t 3\n    ./st no 0\nelse\n    ./st "else:$?" 0\nfi\nif ./st u 4\n    ./st no 0\nelse if ./eq $? 4\n    ./st elif-saw-4 0\nfi\nwhile ./st w 5\n    ./st no 0\ndone\n./st "after:$?" 0\n', 'files': {'eq': EQ, 'st': ST},
+         'expect_stdout': 't\nelse:3\nu\nelif-saw-4\nw\nafter:5\n', 'area': 'expand_env:status-of-a-failed-test-in-the-else-branch'},
+    ]
     out = []
     env = {'A': 'x', 'AB': 'y z', 'B': '', 'C': 'a.b*c', 'D': 'p=q:r'}
     setup = "A=x; AB='y z'; B=; C='a.b*c'; D='p=q:r'; "
@@ -86,6 +91,7 @@ def c10(tier, seed):
         # (followed by name characters the trailing `$` of the value would form a reference when the word is scanned again: known rescan class)
         out.append({'line': "X='%s'; ./pargs \"p${X}q\"" % v, 'files': {'pargs': PARGS}, 'expect_stdout': _argv(['p' + v + 'q']),
                     'area': 'expand_env:value-with-dollar', 'timeout': 3})
+    out += _c10_extra
     return out
 
 
@@ -148,6 +154,15 @@ def c11(tier, seed):
         # inside a substitution the statuses are real: a function called as $(f) short-circuits and sees $? like anywhere else
         {'script': 'function f() {\n    false && echo NO\n    sh -c "exit 3"\n    echo "st=$?"\n}\n./pargs "$(f)"\n', 'files': {'pargs': PARGS}, 'expect_stdout': _argv(['st=3']), 'area': 'substitution:function-statuses'},
     ]
+    # a substitution that is the COMMAND word (alone, or behind leading assignments): its output is one word of data there as well
+    out.append({'line': "echo precious > keep.txt; $(printf '%s' 'cat>keep.txt'); echo rc=$?; cat keep.txt; A=1 `printf '%s' 'cat>keep2.txt'`x; B=2 $(printf '%s' 'cat<nosuch'); ls | grep -c keep", 'files': {'pargs': PARGS},
+                'expect_stdout': 'rc=127\nprecious\n1\n', 'area': 'substitution:in-command-position:output-is-data'})
+    # several substitutions in one word: what an earlier one produced stays data whatever the later ones produce
+    out.append({'line': "./pargs $(printf '%s' '{1..3}')$(echo c) $(printf '%s' 'a>b')$(echo c) $(printf '%s' 'x|y')$(echo z)$(echo w); ls", 'files': {'pargs': PARGS}, 'expect_stdout': _argv(['{1..3}c', 'a>bc', 'x|yzw']) + 'pargs\n',
+                'area': 'substitution:several-in-one-word:earlier-output-stays-data'})
+    # exhaustion while the capture pipes are made: a diagnostic and an empty replacement; a later substitution works
+    for n in (7, 8, 9, 10):
+        out.append({'line': 'ulimit -n %d; A=$(echo a | cat); ulimit -n 64; B=$(echo b); echo "[$B]"' % n, 'timeout': 8, 'expect_stdout': '[b]\n', 'area': 'substitution:descriptor-exhaustion:later-substitution-works'})
     return out
 
 
@@ -251,6 +266,9 @@ def c12(tier, seed):
     # tilde: HOME is the temp dir the case runs in
     out.append({'line': './pargs ~ ~/x a~ "~" \'~\'; echo $HOME', 'files': {'pargs': PARGS}, 'expect_home_tilde': True, 'area': 'expand_home'})
     out.append({'line': './pargs ~/n~ ~/d/~x; echo $HOME', 'files': {'pargs': PARGS}, 'expect_home_tilde2': True, 'area': 'expand_home:only-the-leading-tilde'})
+    out.append({'line': './pargs {a,b}{1..2} f{x,y}-{3..1}.t', 'files': {'pargs': PARGS}, 'expect_stdout': _argv(['a1', 'a2', 'b1', 'b2', 'fx-3.t', 'fx-2.t', 'fx-1.t', 'fy-3.t', 'fy-2.t', 'fy-1.t']), 'area': 'brace:group-and-range-in-one-word'})
+    out.append({'script': 'mkdir plain; touch plain/a.txt plain/b.txt\nfor x in first my\\ dir/*.log "q r"/*.txt plain/*.txt last\n    ./pargs "$x"\ndone\n', 'files': {'pargs': PARGS},
+                'expect_stdout': _argv(['first']) + _argv(['my dir/*.log']) + _argv(['q r/*.txt']) + _argv(['plain/a.txt']) + _argv(['plain/b.txt']) + _argv(['last']), 'area': 'glob:no-match-word-with-a-blank-stays-one-word'})
     # the home directory is the one in effect when the word is expanded, not the first one ever looked up
     out.append({'line': './pargs ~ > /dev/null; export HOME=/tmp/h2; ./pargs ~ ~/y; HOME=/tmp/h3; ./pargs ~/z', 'files': {'pargs': PARGS},
                 'expect_stdout': _argv(['/tmp/h2', '/tmp/h2/y']) + _argv(['/tmp/h3/z']), 'area': 'expand_home:after-HOME-changed'})
@@ -337,6 +355,11 @@ def c13(tier, seed):
     names = ['a>b', 'x;y', 'p|q', 'r&', '#h', '2>&1']
     files = dict({'pargs': PARGS}, **{n: '' for n in names})
     out.append({'line': './pargs *', 'files': files, 'expect_stdout': _argv(sorted(names + ['pargs'])), 'expect_only_files': sorted(names + ['pargs']), 'area': 'data:glob'})
+    # a value with blanks in COMMAND position names one program (there is no word splitting): a `#` inside it is not a comment either
+    out.append({'line': "V='./pargs one #two three'; $V; echo rc=$?; W=$(printf '%s' './pargs four #five'); $W; echo rc=$?", 'files': {'pargs': PARGS}, 'expect_stdout_not_contains': '[one]', 'expect_stdout_last_line_not': 'rc=0', 'area': 'data:value-in-command-position'})
+    # a builtin that composes a command line of its own from an argument: the argument stays one word of it
+    out.append({'line': 'export VIRTUALENV_HOME=$HOME/v; mkdir v; export VIRTUALENV_PYBIN=$HOME/pargs; N="n;touch made"; vox create "$N"; M="m>made2"; vox create "$M"; K="k|./pargs PIPED"; vox create "$K"', 'files': {'pargs': PARGS},
+                'expect_only_files': ['pargs', 'v'], 'expect_stdout_contains': '/v/k|./pargs PIPED]\n', 'expect_stdout_prefix': '[-m]\n[venv]\n', 'area': 'data:builtin-that-composes-a-line:vox-create'})
     # ... also when the pattern matches exactly ONE name
     for n in ('a>b.txt', 'p|q.txt', 'in<x.txt', 'r&.txt', 'a b.txt'):
         out.append({'line': './pargs L *.txt R', 'files': {'pargs': PARGS, n: ''}, 'expect_stdout': _argv(['L', n, 'R']), 'expect_only_files': ['pargs', n], 'area': 'data:glob:single-match'})
@@ -359,6 +382,8 @@ def c17(tier, seed):
         {'line': "alias pargs='pargs self'; pargs a", 'files': P, 'expect_stdout': _argv(['self', 'a']), 'area': 'alias:self-reference', 'timeout': 5},
         {'line': "alias a1='./pargs one'; alias a2='a1 two'; a2 x; echo done", 'files': P, 'expect_stdout_last_line': 'done', 'area': 'alias:other-alias-does-not-loop', 'timeout': 5},
         {'line': "alias n='./pargs 1'; alias n='./pargs 2'; n", 'files': P, 'expect_stdout': _argv(['2']), 'area': 'alias:redefine'},
+        {'line': "WHO=a; alias 2nd='./pargs $WHO'; WHO=b; 2nd; alias 2nd", 'files': P, 'expect_stdout': "[b]\nalias 2nd='./pargs $WHO'\n", 'area': 'alias:value-is-kept-as-written:name-starting-with-a-digit'},
+        {'line': "alias n1='./pargs x'; n1; unalias n1; n1; echo rc=$?; echo q | n1; echo rc2=$?", 'files': P, 'expect_stdout': '[x]\nrc=127\nrc2=127\n', 'area': 'alias:unalias-then-use'},
         {'line': "alias cat='cat -n'; alias show='echo hi | cat'; show", 'files': P, 'expect_stdout': 'hi\n', 'area': 'alias:value-is-a-pipeline:its-later-stage-is-not-replaced-again', 'timeout': 5},
         {'line': "alias cat='cat -n'; alias tr='tr H J'; alias shout='tr a-z A-Z | cat | tr X Y'; echo hello | shout", 'files': P, 'expect_stdout': 'HELLO\n', 'area': 'alias:value-is-a-pipeline:its-later-stage-is-not-replaced-again', 'timeout': 5},
         {'line': "alias n='./pargs 1'; alias m='./pargs 2'; unalias n; m; alias n; echo rc=$?", 'files': P, 'expect_stdout_prefix': _argv(['2']), 'expect_stdout_last_line': 'rc=1', 'area': 'alias:unalias'},
@@ -429,6 +454,13 @@ def c19(tier, seed):
     # the result cannot be written (stdout full or closed): a diagnostic and a non-zero status, the shell goes on
     out.append({'line': '{CICADA} -c "1 + 2; echo next" > /dev/full; echo rc=$?; {CICADA} -c "2 * 3" >&-; echo rc=$?', 'expect_stdout': 'rc=1\nrc=1\n',
                 'area': 'calculator:never-crashes:stdout-cannot-be-written', 'timeout': 5})
+    # (repair a105e61) parentheses nested beyond the limit are rejected with a diagnostic -- closed or not -- and the shell goes on; at the limit the line is evaluated
+    for name, l in (('closed', '(' * 20000 + '1 + 1' + ')' * 20000), ('unclosed', '(' * 20000 + '1 + 1'), ('unclosed-with-one-closing', '(' * 20000 + '1 + 1)'), ('closing-first', ')' + '(' * 20000 + '1 + 1')):
+        out.append({'script': l + '\necho alive\n', 'expect_stdout_last_line': 'alive', 'timeout': 20, 'area': 'calculator:never-crashes:deep-nesting:' + name})
+    out.append({'script': '(' * 100 + '1 + 1' + ')' * 100 + '\n', 'expect_stdout': '2\n', 'timeout': 10, 'area': 'calculator:never-crashes:deep-nesting:at-the-limit'})
+    # 64-bit integer arithmetic is exact where floating point is not
+    for l, v in (('9007199254740993 + 0', '9007199254740993'), ('4611686018427387905 - 4611686018427387904', '1'), ('9223372036854775807 - 9223372036854775806', '1'), ('(9007199254740993) * 1', '9007199254740993')):
+        out.append({'line': l, 'expect_stdout': v + '\n', 'timeout': 5, 'area': 'calculator:integer:exact-beyond-2^53'})
     return out
 
 
@@ -599,6 +631,8 @@ def c09(tier, seed):
         {'line': 'export A=1; A=2 printenv A; printenv A; A=3 ./envp; ./pargs "$A"', 'files': F, 'expect_stdout': '2\n1\n[3]\n[1]\n', 'area': 'vars:prefix-assignment:exported-name'},
         {'line': 'export A=7; ./envp; ./pargs "$A"', 'files': F, 'expect_stdout': '[7]\n[7]\n', 'area': 'vars:export'},
         {'line': 'export A=7; unset A; ./envp; ./pargs "[$A]"', 'files': F, 'expect_stdout': '[]\n[[]]\n', 'area': 'vars:unset'},
+        {'line': "V=$(./two); ./pargs \"$V\"; export W=1; W=$(./two); sh -c 'echo \"$W\"'; X=$(./two) sh -c 'echo \"$X\"'", 'files': dict(F, **{'two': '#!/bin/sh\nprintf "a\\nb\\n"\n'}), 'expect_stdout': '[a\nb]\na\nb\na\nb\n', 'area': 'vars:multi-line-value'},
+        {'line': 'read a b; read c; export X=0; read X; ./pargs "$a" "$b" "$c"; sh -c \'echo "X=$X"\'', 'stdin': 'one two three\nfour\nfive\nsix\n', 'files': F, 'expect_stdout': '[one]\n[two three]\n[four]\nX=five\n', 'area': 'read:several-reads-from-one-input'},
         {'line': 'mkdir A B; touch B/file; cd A; cd ../B; cd file; echo rc=$?; cd -; basename $PWD; pwd | xargs basename', 'files': F, 'expect_stdout': 'rc=1\nA\nA\n',
          'area': 'cd:failed-cd-leaves-the-previous-directory-alone'},
         {'line': 'mkdir A B; touch f; cd A; cd ../B; cd ../f; cd ../nosuch; cd -; cd -; basename $PWD', 'files': F, 'expect_stdout': 'B\n', 'area': 'cd:failed-cd-leaves-the-previous-directory-alone'},
@@ -732,6 +766,12 @@ def c15(tier, seed):
          'expect_stdout': _argv(['P']) + _argv(['P']) + _argv(['Q']) + _argv(['w']) + _argv(['b']), 'area': 'script:arguments:in-a-for-list'},
         {'script': 'function a-b_c() {\n    echo "$0:$1"\n}\na-b_c x\n', 'files': F, 'expect_stdout': 'a-b_c:x\n', 'area': 'function:name-charset'},
         {'script': 'source lib.sh\necho "st=$?"\n', 'files': dict(F, **{'lib.sh': './st a 3\n'}), 'expect_stdout': 'a\nst=3\n', 'area': 'source:status'},
+        # many files that are not there, then one that is: it is run in the current shell like the first one would have been
+        {'script': ''.join('source nosuch%d.sh\n' % i for i in range(80)) + 'source lib.sh w\necho "st=$? $LIBV"\nlibf\n', 'files': dict(F, **{'lib.sh': 'LIBV=set\nfunction libf() {\n    echo in-libf\n}\n'}),
+         'expect_stdout': 'st=0 set\nin-libf\n', 'area': 'source:after-many-failed-sources', 'timeout': 20},
+        # the status of a script that ends in a long loop is that of the last command the loop ran
+        {'script': 'for x in ' + ' '.join(str(i) for i in range(300)) + '\n    ./eq $x 299 && ./st last 1\ndone\n', 'files': dict(F, eq=EQ), 'expect_stdout': 'last\n', 'expect_rc': 1, 'area': 'script:status:long-loop', 'timeout': 30},
+        {'script': 'function chk() {\n    for y in $@\n        ./eq $y 5 || ./st bad 1\n    done\n}\nchk ' + ' '.join(['5'] * 280) + ' 6\necho "st=$?"\n', 'files': dict(F, eq=EQ), 'expect_stdout': 'bad\nst=1\n', 'area': 'function:status:long-loop', 'timeout': 30},
         {'script': 'source l1.sh\necho "$V3"\n', 'files': dict(F, **{'l1.sh': 'source l2.sh\n', 'l2.sh': 'source l3.sh\n', 'l3.sh': 'V3=deep\n'}), 'expect_stdout': 'deep\n', 'area': 'source:chain'},
     ]
     return out
@@ -946,6 +986,11 @@ def c14(tier, seed):
          'expect_stdout': 'testing-1\n1\nafter-1\ntesting-3\n3\nafter-3\n', 'area': 'continue:in-a-branch-followed-by-else'},
         {'script': 'for x in a b\n    while ./cnt k 4\n        if ./st t 0\n            break\n        else\n            ./st no 0\n        fi\n        ./st no2 0\n    done\n    rm -f .cnt.k\n    ./st $x 0\ndone\n', 'files': F,
          'expect_stdout': 'w:k:1\nt\na\nw:k:1\nt\nb\n', 'area': 'break:in-a-branch-followed-by-else:while-inside-for'},
+        # a `#` inside quotes or inside a word on the head line of a construct is a character of the test / the list
+        {'script': 'if ./eq "k#1" "k#1"\n    ./st yes 0\nelse\n    ./st no 0\nfi\nfor x in a#b "c #d"\n    ./st "[$x]" 0\ndone\nif ./eq a#b a#c\n    ./st no 0\nelse if ./eq "x # y" "x # y"\n    ./st yes2 0\nfi\nwhile ./eq "#" "##"\n    ./st no 0\ndone\n', 'files': F,
+         'expect_stdout': 'yes\n[a#b]\n[c #d]\nyes2\n', 'area': 'spelling:hash-inside-a-head-line'},
+        # the loop variable is bound to each word also when a variable of that name is exported
+        {'script': 'export n=0\nfor n in a b\n    ./st "n=$n" 0\n    sh -c \'echo "child:$n"\'\ndone\n', 'files': F, 'expect_stdout': 'n=a\nchild:a\nn=b\nchild:b\n', 'area': 'for:loop-variable-that-is-exported'},
         # (repair 64cdb33) a comment behind break / continue is not part of the keyword; a `#` glued to it makes another word
         {'script': 'for x in 1 2 3\n    if ./eq $x 2\n        continue\t#skip two\n    fi\n    ./st $x 0\ndone\nfor y in 1 2\n    ./st y$y 0\n    break   #   leave\ndone\n./st end 0\n', 'files': F, 'expect_stdout': '1\n3\ny1\nend\n', 'area': 'break-continue:followed-by-a-comment'},
         {'script': 'for x in 1 2 3\n    ./st $x 0\n    break # leave\ndone\n./st end 0\n', 'files': F, 'expect_stdout': '1\nend\n', 'area': 'break-continue:followed-by-a-comment'},
@@ -998,6 +1043,8 @@ def c02(tier, seed):
         {'line': 'head -c 300000 /dev/zero | head -c 10 | wc -c', 'expect_stdout': '10\n', 'area': 'pipeline:sigpipe', 'timeout': 10},
         {'line': 'yes | head -n 3', 'expect_stdout': 'y\ny\ny\n', 'area': 'pipeline:sigpipe', 'timeout': 10},
         {'line': 'true | cat', 'expect_stdout': '', 'expect_rc': 0, 'area': 'pipeline:empty-payload'},
+        {'line': 'B=$(./big); true <<< $B | cat; echo "st=$?"; sh -c : <<< $B | wc -c; echo done', 'files': {'big': '#!/bin/sh\nhead -c 200000 /dev/zero | tr "\\0" a\n'}, 'expect_stdout': 'st=0\n0\ndone\n', 'area': 'pipeline:here-string-larger-than-a-pipe-that-is-not-read', 'timeout': 15},
+        {'line': 'echo caf\u00e9 | wc -c; echo \u00e9 | cat | tr a-z A-Z | cat', 'expect_stdout': '6\n\u00e9\n', 'area': 'pipeline:non-ascii-text-in-front-of-a-pipe', 'timeout': 10},
         {'line': 'seq 3 | ./lg mid > no-such-dir/out.txt | ./lg last; echo "st=$?"; cat log', 'files': {'lg': '#!/bin/sh\necho "start:$1" >> log\ncat > /dev/null\n'},
          'expect_stdout': 'st=0\nstart:last\n', 'area': 'pipeline:a-stage-that-cannot-open-its-output:the-others-start-once', 'timeout': 10},
         {'script': 'seq 3 | ./lg mid > no-such-dir/out.txt | ./lg last\necho after >> log\ncat log\n', 'files': {'lg': '#!/bin/sh\necho "start:$1" >> log\ncat > /dev/null\n'},
@@ -1080,6 +1127,11 @@ def c01(tier, seed):
     for line, exp in (("./pargs '<' x < in.txt", ['<', 'x']), ("./pargs < in.txt a '<' x", ['a', '<', 'x']), ('./pargs "<<<" y <<< word', ['<<<', 'y']), ("./pargs a '<' in.txt <<< w", ['a', '<', 'in.txt']),
                       ("cat in.txt | ./pargs '<' q < in.txt", ['<', 'q'])):
         out.append({'line': line, 'files': {'pargs': PARGS, 'in.txt': 'DATA\n'}, 'expect_stdout': _argv(exp), 'area': 'argv:quoted-lt-next-to-a-real-input-redirection', 'timeout': 5})
+    # the text of a line can arrive on standard input of a shell without a terminal: a quoted newline is a character of the argument there as well
+    out.append({'stdin': "./pargs 'one\ntwo' \"x\ny\" end\n", 'files': {'pargs': PARGS}, 'expect_stdout': _argv(['one\ntwo', 'x\ny', 'end']), 'area': 'argv:stdin-entry:quoted-newline', 'timeout': 5})
+    out.append({'stdin': "./pargs 'first line\n./pargs INJECTED'\n", 'files': {'pargs': PARGS}, 'expect_stdout': _argv(['first line\n./pargs INJECTED']), 'area': 'argv:stdin-entry:quoted-newline', 'timeout': 5})
+    # a quoted tilde (any quoting) is a tilde
+    out.append({'line': './pargs "~" "~/my files" \'~\' \\~ "~x"; echo $HOME > /dev/null', 'files': {'pargs': PARGS}, 'expect_stdout': _argv(['~', '~/my files', '~', '~', '~x']), 'area': 'argv:quoted-tilde', 'timeout': 5})
     # an escaped or quoted `?` / `[` is an ordinary character of the argument, whatever files there are
     out.append({'line': "./pargs x a\\? 'a?' \\[ab] \"a[bc]\" y", 'files': {'pargs': PARGS, 'ab': '', 'ac': ''}, 'expect_stdout': _argv(['x', 'a?', 'a?', '[ab]', 'a[bc]', 'y']), 'area': 'argv:escaped:not-a-wildcard', 'timeout': 5})
     # KNOWN FINDING (recorded, not repaired): the same escaped argument on a line of a SCRIPT (the positional-parameter pass re-serialises the words)
@@ -1111,6 +1163,11 @@ def c05(tier, seed):
                     ('quotes', 'echo ' + '"\'' * 3000), ('backquotes', 'echo ' + '`' * 5001)):
         out.append({'script': l + '\necho alive\n', 'expect_stdout_last_line': 'alive', 'timeout': 20, 'area': 'no-crash:deep-nesting:' + name})
     out.append({'script': '(' * 100 + '1 + 1' + ')' * 100 + '\n', 'expect_stdout': '2\n', 'timeout': 10, 'area': 'no-crash:deep-nesting:parentheses-at-the-limit'})
+    # a here-string larger than a pipe, given to a command that does not read it: the shell goes on
+    out.append({'line': 'B=$(./big); sh -c : <<< $B; head -c 3 <<< $B; echo; true <<< $B; echo next', 'files': {'big': '#!/bin/sh\nhead -c 200000 /dev/zero | tr "\\0" a\n'}, 'expect_stdout': 'aaa\nnext\n', 'timeout': 15, 'area': 'no-hang:here-string-that-is-not-read'})
+    # a lone dot where a number is expected is a syntax error of the calculator, not a panic
+    for l in ('1 + .', '2 * (.)', '. / 4', '3 - -.', '.', '. .', '1 .'):
+        out.append({'script': l + '\necho alive\n', 'expect_stdout_last_line': 'alive', 'timeout': 5, 'area': 'no-crash:arithmetic:lone-dot'})
     # the shell must remain able to run the next command: a script whose lines are odd, followed by a marker
     for l in [x for x in fixed if not x.startswith(('exit', 'exec'))][:30]:
         out.append({'script': l + '\necho alive\n', 'expect_stdout_last_line': 'alive', 'timeout': 5, 'area': 'no-crash:next-command-runs'})
@@ -1128,6 +1185,13 @@ def c08(tier, seed):
                    'echo a > /nonexistent-dir/f; minfd', 'cat <<< hs; minfd', 'echo a | cat <<< hs; minfd', 'X=$(nosuchcmd-xyz); minfd', 'X=`echo a`; minfd',
                    'echo a | cat | cat | cat | cat | cat; minfd', 'sh -c "exit 3"; minfd', 'echo x >> f6; echo y >> f6; minfd', 'alias zz=1; unalias zz; minfd',
                    'cd /; minfd', 'export A=1; minfd', 'read v <<< x; minfd']
+    # a here-string larger than a pipe that its command does not read leaves nothing behind, in the shell or in later programs
+    out.append({'line': 'B=$(./big); true <<< $B; ls /proc/self/fd | tr "\\n" " "; echo; minfd', 'files': {'big': '#!/bin/sh\nhead -c 200000 /dev/zero | tr "\\0" a\n'}, 'expect_stdout': ' '.join(base_set) + ' \n3\n', 'timeout': 15, 'area': 'fd:here-string-that-is-not-read'})
+    # exhaustion while the capture pipes of a substitution are made: nothing stays open, a later substitution works, and a stage that could not be started makes the status non-zero
+    for n in (7, 8, 9, 10):
+        out.append({'line': 'ulimit -n %d; A=$(echo a | cat); ulimit -n 64; B=$(echo b); echo "[$B]"; minfd' % n, 'timeout': 8, 'expect_stdout': '[b]\n3\n', 'area': 'fd:exhaustion:capture-pipes'})
+    for n in (5, 6):
+        out.append({'line': 'ulimit -n %d; cat <<< hello | cat; echo "st=$?"; ulimit -n 64; minfd; true || echo no' % n, 'timeout': 8, 'expect_no_stdout_line': 'st=0', 'expect_stdout_last_line': '3', 'area': 'fd:exhaustion:nonzero-status'})
     # descriptor exhaustion: the pipeline fails with a non-zero status and the shell keeps working
     for l, want in (('ulimit -n 4; cat <<< foo; echo st=$?; ulimit -n 64; minfd', None), ('ulimit -n 6; echo a | cat <<< foo | cat; echo st=$?; ulimit -n 64; minfd', None)):
         out.append({'line': l, 'timeout': 8, 'expect_stdout_last_line': '3', 'expect_no_stdout_line': 'st=0', 'area': 'fd:exhaustion:nonzero-status'})
@@ -1196,6 +1260,19 @@ def c06(tier, seed):
         out.append({'via': 'hook', 'script': pre + ['insert 20 20 0', 'events ' + ' '.join(evs + ['20,0,0']), 'wait_fg 20 20', 'poll', 'dump', 'poll', 'dump'],
                     'expect': ['wait_fg status=0 pending=0', 'poll pending=0', final, 'poll pending=0', final],
                     'area': 'events:latest-stop-or-continue-decides', 'id': 'parked ' + ' '.join(evs)})
+    # ... every alternating history of up to four recorded events, on a job that was stopped or running before: the last one decides
+    for pre_stopped in (False, True):
+        for n in (2, 3, 4):
+            for first in ('30,2,19', '30,3,0'):
+                evs, cur = [], first
+                for _ in range(n):
+                    evs.append(cur)
+                    cur = '30,3,0' if cur == '30,2,19' else '30,2,19'
+                final = T_S if evs[-1] == '30,2,19' else T_R
+                pre = ['insert 30 30 1'] + (['jc_member_stopped 30 30'] if pre_stopped else [])
+                out.append({'via': 'hook', 'script': pre + ['insert 20 20 0', 'events ' + ' '.join(evs + ['20,0,0']), 'wait_fg 20 20', 'poll', 'dump', 'poll', 'dump'],
+                            'expect': ['wait_fg status=0 pending=0', 'poll pending=0', final, 'poll pending=0', final],
+                            'area': 'events:latest-stop-or-continue-decides', 'id': ('stopped before; ' if pre_stopped else 'running before; ') + 'parked ' + ' '.join(evs)})
     # what was recorded about a process that is gone does not meet a later process with the same pid
     T_N = 'table [id=1 jid=1 gid=30 status=Running bg=1 pids=[30] stopped=[]]'
     for evs, nm in ((['30,2,19', '30,0,0'], 'stopped then exited'), (['30,2,19', '30,1,9'], 'stopped then killed'), (['30,2,19', '30,3,0', '30,0,0'], 'continued then exited')):
@@ -1211,6 +1288,9 @@ def c06(tier, seed):
         (['21,2,19', '21,3,0', '20,0,0', '21,0,5'], 'wait_fg status=5 pending=0'),
         (['20,0,0', '21,1,9'], 'wait_fg status=137 pending=0'),
         (['20,0,0', '21,0,4', '99,0,1'], 'wait_fg status=4 pending=1'),
+        (['20,0,0', '21,1,9', '99,0,1'], 'wait_fg status=137 pending=1'),
+        (['21,1,15', '20,1,9', '99,2,19'], 'wait_fg status=143 pending=1'),
+        (['20,2,19', '21,1,2', '99,0,0'], 'wait_fg status=130 pending=1'),
     ]
     for ev, exp in waits:
         out.append({'via': 'hook', 'script': ['insert 20 20 0', 'insert 20 21 0', 'events ' + ' '.join(ev), 'wait_fg 20 20 21'], 'expect': [exp],
@@ -1223,4 +1303,9 @@ def c06(tier, seed):
     return out
 
 
-CASES = {'C14': c14, 'C06': c06, 'C08': c08, 'C01': c01, 'C05': c05, 'C10': c10, 'C11': c11, 'C12': c12, 'C13': c13, 'C17': c17, 'C19': c19, 'C03': c03, 'C04': c04, 'C09': c09, 'C15': c15, 'C02': c02}
+def c07(tier, seed):
+    # `jobs` lists the pipelines with their true state (C07): the job-state histories of C06
+    return [w for w in c06(tier, seed) if w.get('area', '').startswith(('events:', 'job-table:status', 'wait:'))]
+
+
+CASES = {'C14': c14, 'C07': c07, 'C06': c06, 'C08': c08, 'C01': c01, 'C05': c05, 'C10': c10, 'C11': c11, 'C12': c12, 'C13': c13, 'C17': c17, 'C19': c19, 'C03': c03, 'C04': c04, 'C09': c09, 'C15': c15, 'C02': c02}
